@@ -34,6 +34,8 @@ def touched_functions(patches):
 
 
 rt = open(os.path.join(V, 'tools/prompts/refactor_prompt_template.txt')).read()
+if os.environ.get('NO_REFACTOR'):
+    pairs = []
 for a, b in pairs:
     pair = '%s_%s' % (a, b)
     wt = '/tmp/rf%s_%s' % (k, pair)
@@ -60,7 +62,8 @@ for a, b in pairs:
     open('/tmp/rf%s_prompt_%s.txt' % (k, pair), 'w').write(txt)
 
 st = open(os.path.join(V, 'tools/prompts/seed_prompt_template.txt')).read()
-for pid in ids:
+only = [x for x in os.environ.get('SEED_ONLY', '').split(',') if x]
+for pid in (only or ids):
     wt = '/tmp/seed%s_%s' % (k, pid)
     sh('git -C /repo worktree remove --force %s' % wt)
     r = sh('git -C /repo worktree add -q --detach %s HEAD' % wt)
